@@ -535,6 +535,19 @@ Proof.
   apply stepN_write_inode; [exact I|eapply named_under; eassumption|lia].
 Qed.
 
+(* lsetxattr: needs the ancestors only, the destination itself may be anything *)
+Lemma O_lset_xattrs f p xs f' ok : Inv f -> Forall plain p -> under out p -> ancs (names f) p ->
+  lset_xattrs f p xs = (f', ok) -> stepN f f'.
+Proof.
+  intros I P U A. unfold lset_xattrs. destruct xs as [|x xs]; [intros [= <- <-]; apply stepN_refl; exact I|].
+  destruct (resolve f p false) as [c|] eqn:R.
+  2:{ intros [= <- <-]. apply stepN_refl; exact I. }
+  apply res_nf in R; try assumption. subst c.
+  destruct (nget (names f) p) as [[i|md|t]|] eqn:E; try (intros [= <- <-]; apply stepN_refl; exact I).
+  destruct (iget (inodes f) i); intros [= <- <-]; [|apply stepN_refl; exact I].
+  apply stepN_write_inode; [exact I|eapply named_under; eassumption|lia].
+Qed.
+
 Lemma O_chmod f p mode f' ok : Inv f -> Forall plain p -> under out p -> cleanp (names f) p ->
   chmod f p mode = (f', ok) -> stepN f f'.
 Proof.
@@ -730,12 +743,10 @@ Proof.
           eapply O_chmod; [exact I3|exact P|exact U| |exact C].
           apply ancs_nolink_clean; [exact A3|apply is_link_nolink; assumption]. }
         assert (G4 : good2 f (apply_perm o e h p)) by (eapply good2_trans; [exact (proj1 S3)|exact (proj1 S4)]).
-        destruct (o_keep_xattr o && N.eqb (e_kind e) 0) eqn:KX; [|intros [= <- <-]; exact G4].
-        destruct (e_xattrs e) as [|x xs]; [intros [= <- <-]; exact G4|].
-        apply andb_true_iff in KX. destruct KX as [_ K]. apply N.eqb_eq in K.
-        intros H. unfold set_xattrs in H. eapply good2_trans; [exact G4|].
-        apply O_update_inode in H; [exact (proj1 H)|exact (proj1 (proj1 S4))|exact P|exact U|].
-        eapply keeps_cleanp; [exact (proj2 S4)|]. apply ancs_nolink_clean; [exact A3|exact (L3 K)].
+        destruct (o_keep_xattr o); [|intros [= <- <-]; exact G4].
+        intros H. eapply good2_trans; [exact G4|].
+        apply O_lset_xattrs in H; [exact (proj1 H)|exact (proj1 (proj1 S4))|exact P|exact U|].
+        eapply keeps_ancs; [exact (proj2 S4)|exact A3].
 Qed.
 
 (* ---- the whole archive -------------------------------------------------------------------------- *)
@@ -997,3 +1008,14 @@ Theorem hardlinks_stay_inside_explicit : forall out, Forall plain out -> out <> 
   forall p q i, nget (names (extract_all o out arch f0)) p = Some (DFile i) ->
                 nget (names (extract_all o out arch f0)) q = Some (DFile i) -> under out p -> under out q.
 Proof. intros out P Hn o arch f0 Hg D T S F. apply hardlinks_stay_inside; try assumption. repeat split; assumption. Qed.
+
+(* W3 for extended attributes: xattr::set does not follow the link; a symbolic-link entry that carries user.*
+   attributes fails with EPERM after the link is made, and what the link points to is untouched *)
+Definition w_xattr_link : list xentry :=
+  [ mk_xentry (lit "lx") 2 (lit "../elsewhere/victim") None None [(lit "user.k", lit "v")] ].
+Example xattr_not_through_link :
+  snd (extract_run over_opts w_out w_xattr_link w_fs1) = false /\
+  observe (extract_all over_opts w_out w_xattr_link w_fs1) [lit "S"; lit "out"; lit "lx"] = OLink (lit "../elsewhere/victim") /\
+  observe (extract_all over_opts w_out w_xattr_link w_fs1) [lit "S"; lit "elsewhere"; lit "victim"]
+    = observe w_fs1 [lit "S"; lit "elsewhere"; lit "victim"].
+Proof. repeat split; vm_compute; reflexivity. Qed.
